@@ -32,12 +32,10 @@ from __future__ import annotations
 import json
 import logging
 import os
-import pickle
 import re
 import shutil
 import tempfile
 import time
-import traceback
 from pathlib import Path
 
 LEVEL = "model_checking"
@@ -48,18 +46,19 @@ USES_MODE = {"py", "wfpy", "wfboth"}
 USES_CODE = {"sh", "wfsh", "wfboth"}
 
 # universes: independent sub-pools, each searched exhaustively on its own (identities of different universes have
-# different checksums and no shared control value)
+# different checksums and no shared control value); ids = identities whose status is part of the state,
+# submit = the tasks that operations may submit (default: all ids)
 UNIVERSES = {
     "python": dict(ids=("py", "wfpy"), modes=("ok", "raise", "misskey", "arity", "none"), codes=(0,)),
     "python-cf": dict(ids=("py", "wfpy"), modes=("ok", "raise"), codes=(0,)),
-    "python-cf-full": dict(ids=("py", "wfpy"), modes=("ok", "okdict", "raise", "misskey", "arity", "none"), codes=(0,)),
+    "python-cf-full": dict(ids=("py", "wfpy"), modes=("ok", "okdict", "raise", "misskey", "none"), codes=(0,)),
     "shell": dict(ids=("sh", "wfsh"), modes=("ok",), codes=(0, 1, 3)),
     "const": dict(ids=("false", "exit3"), modes=("ok",), codes=(0,)),
-    "mixed-small": dict(ids=("py", "sh", "wfboth"), modes=("ok", "raise"), codes=(0, 3)),
+    "mixed-small": dict(ids=("py", "sh", "wfboth"), submit=("wfboth",), modes=("ok", "raise"), codes=(0, 3)),
     "mixed": dict(ids=("py", "sh", "wfboth"), modes=("ok", "raise", "misskey"), codes=(0, 3)),
-    "mixed-full": dict(ids=("py", "sh", "wfpy", "wfboth"), modes=("ok", "raise", "misskey", "arity", "none"), codes=(0, 1, 3)),
+    "mixed-full": dict(ids=("py", "sh", "wfboth"), modes=("ok", "raise", "misskey", "arity", "none"), codes=(0, 1, 3)),
 }
-WATCHDOG = {"debug": 60, "cf": 180}
+WATCHDOG = {"debug": 90, "cf": 300}
 
 
 def task_of(ident):
@@ -88,7 +87,7 @@ def ops_of(uni, workers):
     u = UNIVERSES[uni]
     out = []
     for w in workers:  # debug first: representative histories prefer the cheap worker
-        for t in u["ids"]:
+        for t in u.get("submit", u["ids"]):
             for m in (u["modes"] if t in USES_MODE else (None,)):
                 for c in (u["codes"] if t in USES_CODE else (None,)):
                     out.append((m, c, t, w))
@@ -289,7 +288,7 @@ def classify(kind, op, e, ran, pre_real, real, outcome):
         return None
     # a python body returning a dict that lacks a declared mandatory output is accepted: the execution that should
     # have failed is stored as a success (whatever the submission then reports)
-    if mode == "misskey" and e["failing"] == ["py"] and ran["py"] and real.get("py") == "ok":
+    if mode == "misskey" and "py" in e["failing"] and ran["py"] and real.get("py") == "ok":
         return "dict-missing-mandatory-key"
     # the re-execution after a cached failure succeeded (result stored as ok) but the stale error is reported
     if (kind == "success-reported-as-failure" and not e["fail"] and all(ran[leaf] for leaf in e["need"])
@@ -299,127 +298,50 @@ def classify(kind, op, e, ran, pre_real, real, outcome):
     return None
 
 
-# ------------------------------------------------------------------ parallel map (non-daemonic forks) ---------------
-class ForkPool:
-    """N long-lived children created with a plain os.fork (not daemonic: they may own process pools themselves, which
-    the process-pool worker of pydra needs).  `map(items)` hands items out dynamically and returns results in item
-    order; `close()` collects the accounting (Part) of every child and merges it into ctx."""
-
-    def __init__(self, ctx, fn, nproc):
-        import multiprocessing as mp
-        from vt.runner import Part
-        import gc
-        self.ctx = ctx
-        self.kids = []
-        base = Path(tempfile.mkdtemp(dir=ctx.scratch, prefix="fp"))
-        gc.collect()
-        gc.freeze()  # keep the collector from touching (and so copying) the pages inherited by the children
-        for w in range(max(1, nproc)):
-            pconn, cconn = mp.Pipe()
-            pid = os.fork()
-            if pid == 0:
-                code = 0
-                try:
-                    pconn.close()
-                    for k in self.kids:
-                        k[1].close()
-                    scratch = base / f"w{w}"
-                    scratch.mkdir()
-                    os.environ["PYDRA_HASH_CACHE"] = str(scratch / "hashcache")
-                    part = Part(seed=ctx.seed + w, scratch=scratch)
-                    while True:
-                        msg = cconn.recv()
-                        if msg is None:
-                            cconn.send(("part", part.dump()))
-                            break
-                        i, item = msg
-                        try:
-                            cconn.send(("ok", i, fn(part, item)))
-                        except Exception:  # noqa
-                            cconn.send(("error", i, traceback.format_exc()))
-                except BaseException:  # noqa
-                    code = 3
-                finally:
-                    os._exit(code)
-            cconn.close()
-            self.kids.append((pid, pconn))
-
-    def map(self, items):
-        from multiprocessing.connection import wait
-        from vt.runner import HarnessError
-        items = list(items)
-        results = [None] * len(items)
-        nxt = 0
-        busy = {}
-        idle = [c for _, c in self.kids]
-        done = 0
-        while done < len(items):
-            while idle and nxt < len(items):
-                c = idle.pop()
-                c.send((nxt, items[nxt]))
-                busy[c] = nxt
-                nxt += 1
-            for c in wait(list(busy)):
-                try:
-                    msg = c.recv()
-                except EOFError:
-                    raise HarnessError(f"C13 child died while working on {items[busy[c]]}")
-                if msg[0] == "error":
-                    raise HarnessError("C13 child failed:\n" + msg[2])
-                results[msg[1]] = msg[2]
-                done += 1
-                del busy[c]
-                idle.append(c)
-        return results
-
-    def close(self):
-        for pid, c in self.kids:
-            try:
-                c.send(None)
-                msg = c.recv()
-                if msg[0] == "part":
-                    self.ctx.merge(msg[1])
-            except (EOFError, OSError):
-                pass
-            c.close()
-            os.waitpid(pid, 0)
-        self.kids = []
-
-    def kill(self):
-        import signal
-        for pid, c in self.kids:
-            try:
-                os.kill(pid, signal.SIGKILL)
-                os.waitpid(pid, 0)
-            except OSError:
-                pass
-        self.kids = []
-
-
 # ------------------------------------------------------------------ search ------------------------------------------
-def run_transition(part, item):
-    """replay history (list of ops) + judge every step; only the violations of the LAST step are reported"""
+def execute_history(part, uni, hist, prefix_states):
+    """replay `hist` on a fresh root, judging every step; returns (violations of the LAST step, info, state) or None
+    when a prefix containing a process-pool submission did not reproduce the recorded state"""
     from vt.runner import HarnessError
-    logging.getLogger("pydra").setLevel(logging.CRITICAL)
-    uni, hist, prefix_states = item
     r = Run(part.scratch, uni)
     try:
         viol, info = [], None
         for k, op in enumerate(hist):
             viol, info = r.step(tuple(op))
-            if k < len(hist) - 1 and prefix_states is not None and r.state() != prefix_states[k]:
+            if k < len(hist) - 1 and prefix_states is not None and r.state() != tuple(prefix_states[k]):
                 if any(o[3] == "cf" for o in hist[: k + 1]):
-                    return dict(diverged=True, at=k)
+                    return None
                 raise HarnessError(f"C13 replay diverged at step {k} of {hist}: {r.state()} != {prefix_states[k]}")
-        e = info["expect"]
-        nontrivial = e["kind"] == "run" and (e["fail"] or len(hist) > 1)
-        part.case(key=(uni, json.dumps(hist)), nontrivial=nontrivial)
-        part.traces += 1
-        for sig, kind, text in viol:
-            part.violation(sig, dict(universe=uni, history=[list(o) for o in hist], kind=kind), f"[{kind}] {text}")
-        return dict(state=r.state(), info=info, nviol=len(viol))
+        return viol, info, r.state()
     finally:
         r.close()
+
+
+def run_transition(part, item):
+    """one transition of the search = one real execution of the whole history; only the last step is reported.
+    Violations that are unclassified (or a hang) are reported only if they reproduce on an immediate second replay."""
+    logging.getLogger("pydra").setLevel(logging.CRITICAL)
+    uni, hist, prefix_states = item
+    res = execute_history(part, uni, hist, prefix_states)
+    if res is None:
+        return dict(diverged=True)
+    viol, info, state = res
+    if any(sig is None or kind == "hang" for sig, kind, _ in viol):
+        again = execute_history(part, uni, hist, prefix_states)
+        part.coverage["second_replays"] = part.coverage.get("second_replays", 0) + 1
+        keep = {(sig, kind) for sig, kind, _ in (again[0] if again else [])}
+        dropped = [v for v in viol if (v[0], v[1]) not in keep]
+        if dropped:
+            part.coverage["violations_not_reproduced"] = part.coverage.get("violations_not_reproduced", 0) + len(dropped)
+            part.capped = True  # an observation that does not reproduce: the run is not a clean exhaustive one
+        viol = [v for v in viol if (v[0], v[1]) in keep]
+    e = info["expect"]
+    nontrivial = e["kind"] == "run" and (e["fail"] or len(hist) > 1)
+    part.case(key=(uni, json.dumps(hist)), nontrivial=nontrivial)
+    part.traces += 1
+    for sig, kind, text in viol:
+        part.violation(sig, dict(universe=uni, history=[list(o) for o in hist], kind=kind), f"[{kind}] {text}")
+    return dict(state=state, info=info, nviol=len(viol))
 
 
 _WARM = []
@@ -492,7 +414,7 @@ def search(ctx, pool, uni, workers, depth_cap):
 def plan(thorough):
     if thorough:
         return [("python", ("debug",), 12), ("shell", ("debug", "cf"), 12), ("const", ("debug", "cf"), 12),
-                ("python-cf-full", ("debug", "cf"), 12), ("mixed-full", ("debug",), 12), ("mixed", ("debug", "cf"), 12)]
+                ("python-cf-full", ("debug", "cf"), 12), ("mixed-full", ("debug",), 12), ("mixed-small", ("debug", "cf"), 12)]
     return [("python", ("debug",), 8), ("shell", ("debug",), 8), ("const", ("debug",), 8), ("mixed-small", ("debug",), 8),
             ("python-cf", ("debug", "cf"), 8)]
 
@@ -501,6 +423,7 @@ def run(ctx):
     logging.getLogger("pydra").setLevel(logging.CRITICAL)
     runs = []
     warm_up(ctx)
+    from vt.ref.forkpool import ForkPool
     pool = ForkPool(ctx, run_transition, ctx.nproc)
     try:
         for uni, workers, cap in plan(ctx.thorough):
@@ -512,7 +435,7 @@ def run(ctx):
     finally:
         pool.kill()
     ctx.traces = ctx.transitions
-    ctx.exhaustive = all(r["fixed_point"] for r in runs)
+    ctx.exhaustive = bool(ctx.exhaustive) and all(r["fixed_point"] for r in runs)
     # simplest counterexample of every (signature, kind) first: the runner writes replay files for the first few only
     groups = {}
     for v in sorted(ctx.violations, key=lambda v: (len(v[1]["history"]), json.dumps(v[1]["history"]))):
